@@ -173,7 +173,19 @@ package graphql
 //@   ensures v == nil ==> len(res0) == 0
 //@   ensures isType(v, "[]any") ==> res0 == v.([]any)
 //@   ensures isType(v, "string") || isType(v, "encoding/json.Number") || isType(v, "bool") || isType(v, "map[string]any") || isType(v, "float64") || isType(v, "int64") || isType(v, "int") ==> len(res0) == 1 && res0[0] == v
+// a typed list is a list: it is converted element by element, never cut down to its first element (D25)
+//@   ensures isType(v, "[]string") ==> len(res0) == len(v.([]string))
+//@   ensures isType(v, "[]int") ==> len(res0) == len(v.([]int))
+//@   ensures isType(v, "[]int64") ==> len(res0) == len(v.([]int64))
+//@   ensures isType(v, "[]float64") ==> len(res0) == len(v.([]float64))
+//@   ensures isType(v, "[]bool") ==> len(res0) == len(v.([]bool))
 //@   nopanic
+//@   replay coerceList.go.tmpl
+//@ func anySlice [C02]
+//@   loop 1: invariant 0 <= idx1 && idx1 <= len(v) && len(out) == len(v)
+//@   ensures len(res0) == len(v)
+//@   nopanic
+//@   pure
 
 // ---------------------------------------------------------------- C08: JSON serialisation
 
